@@ -447,7 +447,15 @@ impl FixtureDatabase {
                 .collect();
 
             for path in to_remove {
-                self.file_cache.remove(&path);
+                // (decided again at the moment of removal: the document may have been
+                // opened since the list was made, and the entry would be its buffer)
+                if self
+                    .file_cache
+                    .remove_if(&path, |key, _| !self.open_documents.contains_key(key))
+                    .is_none()
+                {
+                    continue;
+                }
                 // Also clean related caches for consistency
                 self.line_index_cache.remove(&path);
                 self.ast_cache.remove(&path);
